@@ -41,15 +41,17 @@ PROPS = {
     },
     "C10": {
         "level": "other",
-        "explanation": "Narrow claim on three mechanisms, each decided by a Verus contract on real text. (1) Runtime::check_timeout answers the Timeout violation exactly when the configured deadline is not after the clock reading it takes (with V-tail, claimed under C07/C08, proving that the trampoline performs this check before any frame of a user function is built: once the time limit has elapsed no further user-function call begins). (2) With a search limit configured the search budget is a FINITE stream ending in a violation, so every loop that draws one item per step and stops at the violation terminates within the limit. (3) The numeric loop of `digits` terminates (decreases |n|, proved) and its divisions are defined. NOT decided: that every native loop and every internally iterating adaptor (chain collect, repeat/flatten, group, windows, product, multinom) draws on the budget or is otherwise bounded -- a claim about all natives, listed as unreached.",
+        "explanation": "Narrow claim on three mechanisms, each decided by a Verus contract on real text. (1) Runtime::check_timeout answers the Timeout violation exactly when the configured deadline is not after the clock reading it takes (with V-tail, claimed under C07/C08, proving that the trampoline performs this check before any frame of a user function is built: once the time limit has elapsed no further user-function call begins). (2) With a search limit configured the search budget is a FINITE stream ending in a violation, so every loop that draws one item per step and stops at the violation terminates within the limit. (3) The numeric loop of `digits` terminates (decreases |n|, proved) and its divisions are defined. (4) Two internally iterating adaptors of XGenerator::_iter: the Chain arm hands flat_map a lazy iterator for each part (no call that needs the part to be finite -- `collect` does), and every call of the step function of the Repeat arm terminates (decreases clause), an empty generator repeating to the empty stream. NOT decided: that every native loop and every other internally iterating adaptor (group, windows, product, skip over a huge count, multinom) draws on the budget or is otherwise bounded -- a claim about all natives, listed as unreached.",
         "units": [
             {"kind": "verus", "unit": "timeout"},
             {"kind": "verus", "unit": "budgetfin"},
             {"kind": "verus", "unit": "digits"},
+            {"kind": "verus", "unit": "gchainarm"},
+            {"kind": "verus", "unit": "grepeat"},
         ],
         "unreached": [
             "that each searching / iterating native consumes one budget item per unit of work (only the scan loops of sequence take_while / skip_until are under contract, under C08/C15)",
-            "adaptors that iterate internally: chain (collect of each part), repeat / flatten, group, windows, product; binom / multinom loops (range-bounded `for` loops; multinom not under contract)",
+            "adaptors that iterate internally other than Chain / Repeat: group, windows, product, and `skip(n)` for a huge n on an endless generator built from a sequence (seen by probing: count(0).to_generator().skip(10**12).take(1) keeps the interpreter busy under any search limit -- the budget is drawn per element the OUTERMOST iterator yields; no contract here decides it); binom / multinom loops (range-bounded `for` loops; multinom not under contract)",
             "the proportionality (complexity) part of the statement: no contract here bounds the amount of work, only termination of the loops listed",
         ],
         "assumptions": ["std::time::Instant as a point on the integer line; Instant::now() as a ghost-logged reading (R-state)",
@@ -198,9 +200,11 @@ PROPS = {
             {"kind": "verus", "unit": "genchain"},
             {"kind": "verus", "unit": "gwindows"},
             {"kind": "verus", "unit": "ggroup"},
+            {"kind": "verus", "unit": "gchainarm"},
+            {"kind": "verus", "unit": "grepeat"},
         ],
         "unreached": [
-            "the adaptors SuccessorsUntil, Zip, Chain, Repeat, WithCount, Product of XGenerator::_iter; that std's filter_map / map_while / map / scan apply the step closure to every element in order (documented meaning, trusted); laziness / look-ahead, re-iterability, the Chain arm of _iter (flat_map over the parts; XGenerator::chain's flattening is under contract), the consumers join / the reducing ones (to_array, len, last, get, nth are under contract from the statement after the downcast), and the adaptors written in the xray language",
+            "the adaptors SuccessorsUntil, Zip, WithCount, Product of XGenerator::_iter (Chain and Repeat: the closure handed to flat_map resp. the step function are under contract; that flat_map / from_fn concatenate / call them as documented is trusted); that std's filter_map / map_while / map / scan apply the step closure to every element in order (documented meaning, trusted); laziness / look-ahead of the other adaptors, re-iterability, the consumers join / the reducing ones (to_array, len, last, get, nth are under contract from the statement after the downcast), and the adaptors written in the xray language",
         ],
         "assumptions": ["V-gstep: the evaluator as a deterministic function `apply`; predicates answer a Bool (type fact, C01); std's filter_map / map_while / map / scan apply the closure to each element in order",
                         "std::iter::Iterator::{skip, take} by their documented meaning on a sequence view (finite-prefix model of a stream)",
@@ -285,8 +289,8 @@ CLAIMS = {
     },
     "C10": {
         "engine": "vx+verus",
-        "technique": "contract-based deductive verification: Verus contracts on the real text of Runtime::check_timeout (ghost clock), RuntimeLimits::search_iter (stream model of std's adaptors) and the digit loop of the `digits` builtin (termination by a decreases clause)",
-        "text": "Narrow (three mechanisms): check_timeout is proved to answer Timeout exactly when the deadline is not after the clock reading it takes; with a search limit the search budget is proved to be a finite stream ending in the MaximumSearch violation; the digit loop is proved to terminate (|n| decreases) with its divisions defined.",
+        "technique": "contract-based deductive verification: Verus contracts on the real text of Runtime::check_timeout (ghost clock), RuntimeLimits::search_iter (stream model of std's adaptors) and the digit loop of the `digits` builtin and the step function of the Repeat adaptor (termination by decreases clauses); the Chain arm's closure (no call that requires a finite part)",
+        "text": "Narrow (three mechanisms): check_timeout is proved to answer Timeout exactly when the deadline is not after the clock reading it takes; with a search limit the search budget is proved to be a finite stream ending in the MaximumSearch violation; the digit loop is proved to terminate (|n| decreases) with its divisions defined; every call of the Repeat adaptor's step function is proved to terminate (an empty generator repeats to the empty stream) and a Chain part is handed on lazily.",
         "note": "Termination and the timeout test only; that every native loop draws on a limit, and the proportionality of the work, are listed as unreached.",
     },
     "C17": {
@@ -339,7 +343,7 @@ CLAIMS = {
     },
     "C16": {
         "engine": "vx+verus",
-        "technique": "contract-based deductive verification: Verus contracts on the real text of the Slice arm of XGenerator::_iter, of the merge arithmetic (start, end, guard) of XGenerator::slice, and of the element closures of the adaptors Filter, TakeWhile, SkipUntil, Map, Aggregate, Windows, Group, of XGenerator::chain, and of the loops of the consumers to_array / len / last / get",
+        "technique": "contract-based deductive verification: Verus contracts on the real text of the Slice arm of XGenerator::_iter, of the merge arithmetic (start, end, guard) of XGenerator::slice, and of the element closures of the adaptors Filter, TakeWhile, SkipUntil, Map, Aggregate, Windows, Group, of XGenerator::chain, of the Chain and Repeat arms of _iter over a possibly endless stream model, and of the loops of the consumers to_array / len / last / get",
         "text": "Narrow (mechanisms): the consumers to_array, len, last and get are proved to return the array of all elements in order, their number, the last element (an error value for the empty generator) and the element at the requested index (an error value beyond the end), and to end with the leftmost error value / a violation when an element is one; the element step of Filter (kept exactly when the predicate answers true), TakeWhile (the stream ends at the first false), SkipUntil (dropped until the first true, then everything passes and the predicate is no longer consulted), Map (replaced by the function's answer) and Aggregate (state := f(state, element), which is the element yielded) is proved for every incoming element, including that a violation is handed on and a callback's error value is the element yielded. Skip/take composition: `Slice(inner, start, end)` is proved to yield exactly elements [start, end) of the inner stream, the merged bounds of nested slices are proved to be the composition (lemma over the window view) and overflow-free under the guard the code tests.",
         "note": "The other adaptors, laziness and re-iterability are listed as unreached; std skip/take are axiomatised on a finite-prefix sequence view and filter_map / map_while / map / scan are trusted to apply the step closure to each element in order; the evaluator is a deterministic function `apply`.",
     },
